@@ -336,8 +336,8 @@ func c19Variant(r *rand.Rand, scheme, host string) (string, string, string) {
 	switch k := r.Intn(16); k {
 	case 0, 1, 2:
 		return "same", scheme, host
-	case 3:
-		return "scheme", c19FlipScheme(scheme), host
+	case 3, 14:
+		return "scheme", c19FlipScheme(scheme), host // same host:port string, other scheme
 	case 4:
 		return "case", scheme, strings.ToUpper(name[:1]) + name[1:] + h[len(name):]
 	case 5:
@@ -637,6 +637,34 @@ func (*c19) Corpus() []any {
 			AdhocURLs: []string{"https://cdn.other.test/a-1.0.0.tgz"}},
 		c19Case{Kind: "locate", Ref: "a", RepoURL: "https://private.corp.test/charts", User: "user-cli", Pass: "pw-cli", Verify: 1, ProvOK: true,
 			AdhocURLs: []string{"https://cdn.other.test/a-1.0.0.tgz"}},
+		// scheme-only differences (same host:port string, explicit and default-port spellings)
+		// on every call path: the pair configured for the https repository must not go out over http
+		c19Case{Kind: "locate", Ref: "a", RepoURL: "https://private.corp.test/charts", User: "user-cli", Pass: "pw-cli", Verify: 1, ProvOK: true,
+			AdhocURLs: []string{"http://private.corp.test/charts/a-1.0.0.tgz"}, Note: "scheme-only"},
+		c19Case{Kind: "locate", Ref: "a", RepoURL: "https://private.corp.test:8443/charts", User: "user-cli", Pass: "pw-cli",
+			AdhocURLs: []string{"http://private.corp.test:8443/charts/a-1.0.0.tgz"}, Note: "scheme-only"},
+		c19Case{Kind: "locate", Ref: "a", RepoURL: "http://private.corp.test:80/charts", User: "user-cli", Pass: "pw-cli",
+			AdhocURLs: []string{"https://private.corp.test:80/charts/a-1.0.0.tgz"}, Note: "scheme-only"},
+		c19Case{Kind: "pull", Ref: "a", RepoURL: "https://private.corp.test/charts", User: "user-cli", Pass: "pw-cli", Verify: 3, ProvOK: true,
+			AdhocURLs: []string{"http://private.corp.test/charts/a-1.0.0.tgz"}, Note: "scheme-only"},
+		c19Case{Kind: "pull", Ref: "a", RepoURL: "https://private.corp.test:443/charts", User: "user-cli", Pass: "pw-cli",
+			AdhocURLs: []string{"http://private.corp.test:443/charts/a-1.0.0.tgz"}, Note: "scheme-only"},
+		c19Case{Kind: "download", Ref: "private/a", Verify: 3, ProvOK: true, Repos: []c19Repo{
+			{Name: "private", URL: "https://private.corp.test/charts", User: "user-private", Pass: "pw-private", URLs: []string{"http://private.corp.test/charts/a-1.0.0.tgz"}}},
+			Note: "scheme-only"},
+		c19Case{Kind: "download", Ref: "http://private.corp.test:8443/charts/a-1.0.0.tgz", Repos: []c19Repo{
+			{Name: "private", URL: "https://private.corp.test:8443/charts", User: "user-private", Pass: "pw-private", URLs: []string{"http://private.corp.test:8443/charts/a-1.0.0.tgz"}}},
+			Note: "scheme-only"},
+		c19Case{Kind: "download", Ref: "private/a", User: "user-cli", Pass: "pw-cli", Copts: []c19Opt{{K: "auth", A: "user-cli", B: "pw-cli"}, {K: "passall"}},
+			Repos: []c19Repo{{Name: "private", URL: "https://private.corp.test/charts", URLs: []string{"http://private.corp.test/charts/a-1.0.0.tgz"}}}, Note: "scheme-only"},
+		c19Case{Kind: "manager", DepRepo: "https://private.corp.test/charts", SkipUpdate: true, Verify: 3, ProvOK: true, Repos: []c19Repo{
+			{Name: "private", URL: "https://private.corp.test/charts", User: "user-private", Pass: "pw-private", URLs: []string{"http://private.corp.test/charts/a-1.0.0.tgz"}}},
+			Note: "scheme-only"},
+		c19Case{Kind: "manager", Build: true, DepRepo: "http://private.corp.test:80/charts", SkipUpdate: true, Repos: []c19Repo{
+			{Name: "private", URL: "http://private.corp.test:80/charts", User: "user-private", Pass: "pw-private", URLs: []string{"https://private.corp.test:80/charts/a-1.0.0.tgz"}}},
+			Note: "scheme-only"},
+		c19Case{Kind: "index", Repos: []c19Repo{{Name: "private", URL: "https://private.corp.test/charts", User: "user-private", Pass: "pw-private", URLs: []string{"a-1.0.0.tgz"}}},
+			Redirect: map[string]string{"private.corp.test/charts/index.yaml": "http://cdn.other.test/_landed/a-1.0.0.tgz"}, Note: "index-redirect-unrelated"},
 		// dependency on a private repository whose index lists an absolute URL that an EARLIER,
 		// credential-less repository lists too (scanReposForURL picks the first owner)
 		c19Case{Kind: "manager", DepRepo: "https://private.corp.test/charts", SkipUpdate: true, Repos: []c19Repo{
